@@ -34,7 +34,7 @@ import inline_units
 import spec_emph
 
 ID = 'C06'
-EXTRA_MODULES = ['Mistletoe.Proofs.CoreTotal', 'Mistletoe.Proofs.EmphRefine', 'Mistletoe.Proofs.EmphRefineEsc', 'propsdriver']
+EXTRA_MODULES = ['Mistletoe.Proofs.CoreTotal', 'Mistletoe.Proofs.EmphRefine', 'Mistletoe.Proofs.EmphRefineEsc', 'Mistletoe.Proofs.EmphHtml', 'propsdriver']
 RULE = ('exhaustively all strings over {a, space, *, _, .} up to length 7 (quick) / 9 (thorough), over {a,*,_,\\,!,[} up to '
         'length 6 / 7 and over {a,*}, {a,_} up to length 12 / 14; random strings up to length 40 over a wider alphabet (Unicode '
         'punctuation and whitespace, digits, letters, backslash, "!", "["). Distinct by string; non-trivial when the string '
@@ -45,9 +45,12 @@ ASSUMPTIONS = ['texts contain no other inline syntax (no backticks, closing brac
                'escapes, "!" and "[" are included']
 PARTIAL = ['proved: the parser never fails; matches are well-formed, made of one delimiter character, and nest; for texts without '
            'backquote, brackets, < and & - backslash escapes included - the matches ARE those of the specification algorithm (Lean '
-           'specification, C06_emphasis_is_spec_esc_partial). Not proved: texts with "!" and "[" next to delimiter runs (explored '
-           'exhaustively over a small alphabet against the Python oracle), and the step from matches to <em>/<strong> HTML (the '
-           'span resolver C16 + the HTML renderer C08, tied by the inline/doc units)',
+           'specification, C06_emphasis_is_spec_esc_partial), AND THE OUTPUT is the specification\'s HTML: the span resolver, the token '
+           'builder and the HTML renderer turn those matches into <em>/<strong> nested as the specification\'s spans around the escaped '
+           'text (Props/C06_Html.lean: C06_html_is_spec_esc_partial at inline level, C06_paragraph_html_is_spec_esc_partial through '
+           'Document + HtmlRenderer; one-line texts without "~~"; re-checked on the real code each run: c06.theorem.html). Not '
+           'proved: texts with "!" and "[" next to delimiter runs, multi-line texts and "~~" (explored exhaustively over a small '
+           'alphabet against the Python oracle)',
            'the Lean specification and the Python oracle are two readings of the same text of the specification; they are '
            'compared with each other on every run (spec.emph) and with 114 examples of the corpus inside Spec/Emphasis.lean']
 
@@ -156,6 +159,20 @@ def real_spans(text):
         impl.reset_library()
 
 
+def real_inline_html(text):
+    """HtmlRenderer's rendering of the inline tokens of `text` (no block phase: the text is handed to tokenize_inner as it is)"""
+    from mistletoe import span_token
+    from mistletoe.html_renderer import HtmlRenderer
+    try:
+        with impl.time_limit(10):
+            with HtmlRenderer() as r:
+                return ''.join(r.render(tok) for tok in span_token.tokenize_inner(text))
+    except Exception as e:
+        return {'raises': type(e).__name__}
+    finally:
+        impl.reset_library()
+
+
 def theorem_units(ctx):
     texts = ['*\x1fa*', '*\x0ba*', 'a*\u2028b*']
     for k in range(1, (7 if not ctx.thorough else 9) + 1):
@@ -175,7 +192,7 @@ def theorem_units(ctx):
     for _ in range(ctx.budget(8000, 80000)):
         texts.append(''.join(rng.choice(wide) for _ in range(rng.randint(2, 40))))
     res = common.driver_batch([{'op': 'c06.spec', 'text': t} for t in texts], binary=common.PROPS_DRIVER)
-    n_ok = n_dev = 0
+    n_ok = n_dev = n_html = 0
     for t, r in zip(texts, res):
         if not (isinstance(r, dict) and r.get('plain')):
             continue
@@ -191,7 +208,12 @@ def theorem_units(ctx):
         except Exception as e:
             real = {'raises': type(e).__name__}
         ctx.compare('c06.theorem', {'text': t}, r['spans'], real, kind='len%d' % min(len(t), 12))
+        # the OUTPUT: the specification's HTML of the text against the real tokenize_inner + HtmlRenderer (C06_html_is_spec_esc_partial)
+        if r.get('htmlOk'):
+            n_html += 1
+            ctx.compare('c06.theorem.html', {'text': t}, r['html'], real_inline_html(t), kind='len%d' % min(len(t), 12))
     dev = '*\x1fa*'
+    ctx.notes.append('%d texts satisfy the hypotheses of C06_html_is_spec_esc_partial (output level); ' % n_html)
     ctx.notes.append('%d texts satisfy the hypotheses of C06_emphasis_is_spec_partial; %d plain texts contain one of the eight deviant '
                      'whitespace code points (outside the theorem); C06_whitespace_deviation on the real code: find_core_tokens(%r) = %r, '
                      'specification spans %r' % (n_ok, n_dev, dev, real_spans(dev), [list(x) for x in [(0, 1, 3, 4, False)]]))
